@@ -230,6 +230,27 @@ Theorem C20_source_encode_bits_is_model : forall original bits bit_value, bits <
   encode_bits_list original bits bit_value = Ok (src_encode_bits original bits bit_value).
 Proof. exact src_encode_bits_eq. Qed.
 
+(* ---- the second public route: var.read(fmt) / var.write(value, fmt) ----
+   The dispatch on fmt, translated from the CURRENT source text of the two methods (they must consist of nothing but
+   the dispatch: any conversion done in place does not translate), is the model's rw_route ... *)
+Theorem C20_source_read_route_is_model : forall fmt, src_read_route fmt = rw_route fmt.
+Proof. exact src_read_route_eq. Qed.
+
+Theorem C20_source_write_route_is_model : forall fmt, src_write_route fmt 0 = rw_route fmt.
+Proof. exact src_write_route_eq. Qed.
+
+(* ... and going through the method is going through the attribute: same result, same store afterwards, so every
+   theorem above about .raw / .phys / .desc holds for read / write; an unknown format reads None and writes nothing. *)
+Theorem C20_read_write_agree : forall od c,
+  (forall v, step_op od c (OWrite FMT_RAW (OSetRaw v)) = step_op od c (OSetRaw v)) /\
+  (forall n d, step_op od c (OWrite FMT_PHYS (OSetPhys n d)) = step_op od c (OSetPhys n d)) /\
+  (forall d, step_op od c (OWrite FMT_DESC (OSetDesc d)) = step_op od c (OSetDesc d)) /\
+  step_op od c (ORead FMT_RAW) = step_op od c OGetRaw /\
+  step_op od c (ORead FMT_PHYS) = step_op od c OGetPhys /\
+  step_op od c (ORead FMT_DESC) = step_op od c OGetDesc /\
+  (forall fmt o, rw_route fmt = 0 -> step_op od c (OWrite fmt o) = (VNone, c) /\ step_op od c (ORead fmt) = (VNone, c)).
+Proof. exact rw_agrees. Qed.
+
 Print Assumptions C20_bits_set_exact.
 Print Assumptions C20_bits_get_after_set.
 Print Assumptions C20_bits_get_exact.
@@ -250,3 +271,6 @@ Print Assumptions C20_cell_is_store.
 Print Assumptions C20_bits_on_cell.
 Print Assumptions C20_source_decode_bits_is_model.
 Print Assumptions C20_source_encode_bits_is_model.
+Print Assumptions C20_source_read_route_is_model.
+Print Assumptions C20_source_write_route_is_model.
+Print Assumptions C20_read_write_agree.
